@@ -347,6 +347,29 @@ fn eval(a: &[String]) -> String {
       }
       out
     }
+    "year_nine_star" => {
+      use tyme4rs::tyme::lunar::LunarYear;
+      use tyme4rs::tyme::sixtycycle::SixtyCycleYear;
+      format!("{} {}", LunarYear::from_year(v[0] as isize).get_nine_star().get_index(), SixtyCycleYear::from_year(v[0] as isize).get_nine_star().get_index())
+    }
+    "roundtrip_scan" => {
+      // civil -> lunar -> civil on every day of a few years (where the real month table tiles)
+      let mut out = "NONE".to_string();
+      'scan: for y in [1000isize, 1582, 1900, 2020, 2023, 2033, 2034, 3000] {
+        let mut day = SolarDay::from_ymd(y, 1, 1);
+        let mut prev: Option<(isize, isize, usize)> = None;
+        for _ in 0..SolarYear::from_year(y).get_day_count() {
+          let l = day.get_lunar_day();
+          let back = l.get_solar_day();
+          let cur = (l.get_year(), l.get_month(), l.get_day());
+          let consecutive = match prev { None => true, Some(p) => (p.0 == cur.0 && p.1 == cur.1 && p.2 + 1 == cur.2) || cur.2 == 1 };
+          if back != day || !consecutive { out = format!("{}-{}-{} -> lunar {:?} -> {}-{}-{}", day.get_year(), day.get_month(), day.get_day(), cur, back.get_year(), back.get_month(), back.get_day()); break 'scan; }
+          prev = Some(cur);
+          day = day.next(1);
+        }
+      }
+      out
+    }
     "six_star" => {
       // month number, leap flag, day -> six star index on a real lunar day with these
       use tyme4rs::tyme::lunar::{LunarDay, LunarYear};
